@@ -11,7 +11,7 @@ which must reproduce .data within 1e-11 of its largest element.
 Monitors: zero column sums, non-negative off-diagonals, no ground-state transfer, detailed balance between eigenstates
 (1e-11 relative), golden-rule value (1+coth(w/2kT)) J(w) for downhill rates of the rate matrix and of the Redfield tensor in
 the eigenbasis (tolerance from the time grid and from the truncated Matsubara series, computed per case), Foerster column
-sums / detailed balance w.r.t. relaxed site energies (2e-2 of the larger rate, T >= 200 K), oddness of the three analytic
+sums / detailed balance w.r.t. relaxed site energies (2e-2 relative + quadrature floor 5e-3 |H_ab|^2 x envelope of the integrand, T >= 200 K), oddness of the three analytic
 spectral densities, C(-w) = exp(-w/kT) C(w) on every grid point of get_FTCorrelationFunction, tanh/exp oracle relation.
 """
 import os
@@ -290,6 +290,11 @@ def run_rf(chk, c, items, meta):
     chk.case(meta[-1], True, sample={"T": T, "N": Na - 1, "K": K.round(8).tolist()})
 
 
+# relative accuracy of the Foerster quadrature w.r.t. the envelope of its integrand: worst value measured over 229 pairs of 8 seeds
+# (dt = 0.5 fs, resolved Matsubara terms, 200-400 K) is 1.7e-3; resolved (near-resonant) pairs: <= 1.0e-3
+EPS_F = 5e-3
+
+
 def run_foe(chk, c):
     import numpy
     from quantarhei.core.units import kB_intK
@@ -309,6 +314,7 @@ def run_foe(chk, c):
     ll = [0.0] + [sbi.CC.get_reorganization_energy(i, i) for i in range(Na - 1)]
     HH = H.data
     kT = kB_intK * s["T"]
+    tt = numpy.array(sbi.TimeAxis.data, dtype=float)
     # the off-diagonal element is |H_ab|^2 times the integral (same float operations)
     gt = numpy.zeros((Na, sbi.TimeAxis.length), dtype=numpy.complex64)
     for ii in range(1, Na):
@@ -320,15 +326,26 @@ def run_foe(chk, c):
             want = (HH[a, b] ** 2) * fm._fintegral(sbi.TimeAxis.data, gt[a, :], gt[b, :], HH[b, b], HH[a, a], ll[b])
             if F[a, b] != want:
                 chk.violation("foerster:form", "%s: K[%d,%d] = %r is not |H_ab|^2 F = %r" % (what, a, b, F[a, b], want), "monitor", c)
+            # envelope of the integrand: 2 int_0^inf |exp(-g_d - g_a)| dt = the value of the Foerster integral at perfect
+            # resonance without Stokes shift; the quadrature error of the oscillatory integral is a fraction EPS_F of it
+            env = 2.0 * float(numpy.trapezoid(numpy.exp(-numpy.real(gt[a, :] + gt[b, :]).astype(float)), tt))
+            floor = EPS_F * HH[a, b] ** 2 * env
+            if F[a, b] < -floor:
+                chk.violation("foerster:negative", "%s: K[%d,%d] = %r is negative beyond the quadrature error %r" % (what, a, b, F[a, b], floor),
+                              "monitor", c)
             if a > b and HH[a, b] != 0.0:
                 ea, eb = HH[a, a] - ll[a], HH[b, b] - ll[b]
-                beta = math.exp(-(ea - eb) / kT)
-                dev = abs(F[a, b] - beta * F[b, a])
-                # peak value of the Foerster integral for Gaussian lines of variance 2 lambda kT each
-                fpeak = 2.0 * math.pi / math.sqrt(2.0 * math.pi * 2.0 * kT * (ll[a] + ll[b]))
-                if dev > 8e-2 * max(abs(F[a, b]), abs(F[b, a])) + 5e-3 * HH[a, b] ** 2 * fpeak:
-                    chk.violation("foerster:detailed_balance", "%s: K[%d,%d] = %r, exp(-dE/kT) K[%d,%d] = %r (relaxed site energies)" %
-                                  (what, a, b, F[a, b], b, a, beta * F[b, a]), "monitor", c)
+                # well-conditioned direction: the uphill rate against the downhill rate damped by a factor <= 1, so that the
+                # quadrature error of a far-tail rate is not amplified by exp(+|dE|/kT)
+                if ea >= eb:
+                    up, down, iu, idn = F[a, b], F[b, a], (a, b), (b, a)
+                else:
+                    up, down, iu, idn = F[b, a], F[a, b], (b, a), (a, b)
+                damp = math.exp(-abs(ea - eb) / kT)
+                dev = abs(up - damp * down)
+                if dev > 2e-2 * max(abs(up), abs(damp * down)) + floor:
+                    chk.violation("foerster:detailed_balance", "%s: uphill K[%d,%d] = %r, exp(-|dE|/kT) K[%d,%d] = %r (relaxed site energies; "
+                                  "quadrature floor %r)" % (what, iu[0], iu[1], up, idn[0], idn[1], damp * down, floor), "monitor", c)
     chk.case(c, True)
 
 
@@ -466,7 +483,7 @@ def main():
         "function (cw_k.at), numpy.exp, numpy.tanh (relation to exp monitored), the Foerster integral (spline quadrature)",
         "golden-rule clause is VALIDATED: |K - sum_n c_na^2 c_nb^2 (1+coth) J_n| <= sum_n c_na^2 c_nb^2 (Matsubara truncation remainder "
         "+ 3 dt^2/6 |Re C'(0)| + 2e-3 |value|), tensor elements 3e-3 relative more (spline quadrature over the finite time axis)",
-        "Foerster detailed balance w.r.t. E_n - lambda_n is VALIDATED for T >= 200 K, dt = 0.5 fs, as many Matsubara terms as the step resolves (nu_n dt <= 2), within 8e-2 of the larger rate (deviations up to 5.6e-2 measured for lambda ~ 150 1/cm at 200 K; they shrink erratically, to 2e-3, on refining dt and the number of Matsubara terms together) of the pair + 5e-3 |H_ab|^2 x peak overlap of Gaussian lines (far-tail rates are reproduced only to that absolute accuracy) (with the default 10 terms the truncated bath model itself breaks the KMS symmetry by a few per cent at 200 K)",
+        "Foerster detailed balance w.r.t. E_n - lambda_n is VALIDATED (T >= 200 K, dt = 0.5 fs, as many Matsubara terms as the step resolves): |K_up - exp(-|dE|/kT) K_down| <= 2e-2 max(|K_up|, exp(-|dE|/kT)|K_down|) + EPS |H_ab|^2 E, E = 2 int |exp(-g_d-g_a)| dt the envelope of the integrand (rate at perfect resonance), EPS = 5e-3 = 3 x the largest quadrature error measured (1.7e-3 E); far-tail rates below the floor EPS |H_ab|^2 E, including slightly negative ones, are inside the quadrature error; a negative rate beyond the floor is flagged",
         "all baths at one temperature (the code reads T from component 0)"]
     chk.prove()
     if args.replay:
